@@ -194,6 +194,17 @@ def body_cli(case, rec):
             n_records += len(objects)
             edited |= any(r[0] == "F" and (r[4] == -1 or len(r) > 5 and "Cut" in r[5]) for _n, rows in objects for r in rows)
         rec.note(case, n_records > 1 and edited, ({"edited"} if edited else set()) | ({"stale_cache_" + case["stale_cache"]} if case.get("stale_cache") else set()))
+        # the same command once more: this run finds the index files the first one wrote beside the FASTA
+        out2 = d / "out2" / "x.1.fa"
+        out2.parent.mkdir()
+        res2 = remap.run_cli_inprocess(["-a", src, "-p", mp, "-o", out2], fasta_buffer=case.get("fasta_buffer"))
+        if res2.exit_code != 0:
+            raise Violation(f"second run (index files present) failed: exit {res2.exit_code} {type(res2.exception).__name__}: {res2.exception}")
+        for f in fa_files:
+            for g in (f, f.with_suffix(".agp")):
+                g2 = out2.parent / g.name
+                if not g2.exists() or g2.read_bytes() != g.read_bytes():
+                    raise Violation(f"second run (index loaded from the files the first run wrote): {g.name} differs from the first run's, which was checked against the input FASTA")
     finally:
         remap.rmtree(d)
 
